@@ -30,7 +30,7 @@ theorem done_stable_stepB (c : Cfg) (st st' : StB) (e : EvB) (h : stepB c st e =
 theorem finishRun_spec {c : Cfg} {st st' : StB} {s : Nat} {x : Exit} {pick : Nat}
     (h : finishRun c st s x pick = some st') :
     ∃ r a', verdict c st s x pick = some r ∧ stepA c st.a (.finish s r) = some a' ∧
-      st' = { st with a := a', pcB := setAt st.pcB s .over, failC := setAt st.failC s (x == .critical) } := by
+      st' = { st with a := a', pcB := setAt st.pcB s .over } := by
   unfold finishRun at h
   split at h
   · cases h
